@@ -413,9 +413,10 @@ class Ctx:
     def prove(self, module, extra_modules=()):
         """lake build + token grep + axiom audit for one Props module; fills obligations/discharged."""
         ok, out = lean_build([module] + list(extra_modules))
-        self.cov["checker_cmd"] = (f"cd /verif/lean && lake build {module} rmodel && "
-                                   f"lake env lean <generated '#print axioms' file for every theorem of {module}>"
-                                   + (" && lake env leanchecker " + module if self.thorough else ""))
+        cmd = (f"cd /verif/lean && lake build {module} rmodel && "
+               f"lake env lean <generated '#print axioms' file for every theorem of {module}>"
+               + (" && lake env leanchecker " + module if self.thorough else ""))
+        self.cov["checker_cmd"] = (self.cov["checker_cmd"] + " ; " + cmd) if self.cov["checker_cmd"] else cmd
         self.cov["trusted_base"] = ["Lean 4.33.0 kernel", "axioms: propext, Classical.choice, Quot.sound (audited per theorem)",
                                     "no native_decide / bv_decide / sorry / user axioms (grep + #print axioms)"]
         if not ok:
@@ -426,12 +427,11 @@ class Ctx:
                 names = theorem_names(module)
             except OSError:
                 pass
-            self.cov["obligations"] = max(len(names), 1)
-            self.cov["discharged"] = 0
+            self.cov["obligations"] += max(len(names), 1)
             return False
         hits = forbidden_tokens(module)
         res, raw = audit(module)
-        self.cov["obligations"] = len(res)
+        self.cov["obligations"] += len(res)
         good = 0
         bad = []
         for n, ax in res:
@@ -439,12 +439,11 @@ class Ctx:
                 good += 1
             else:
                 bad.append((n, ax))
-        self.cov["discharged"] = good
-        self.cov["theorems"] = [n for n, _ in res]
+        self.cov.setdefault("theorems", []).extend(n for n, _ in res)
         if hits:
             self.broke("proof", module, "forbidden tokens: " + "; ".join(hits[:5]))
-            self.cov["discharged"] = 0
             return False
+        self.cov["discharged"] += good
         if bad or not res:
             self.broke("proof", module, f"axiom audit failed: {bad[:5]} raw={raw[-500:]}")
             return False
